@@ -3,6 +3,8 @@
  *   arr            mpt::array (raw bytes)
  *   t1 t12 te      mpt::typed_array<uint8_t | Pod (12 bytes) | Elem>   (copyable buffers)
  *   u1 u12 ue      mpt::unique_array<...>                              (BufferNoCopy buffers)
+ *   mp             mpt::map<uint8_t, uint8_t>                          (typed_array of 2-byte entries)
+ *   pa             mpt::pointer_array<uint8_t>                         (typed_array of pointers: swap, compact)
  * Elem is an element type whose constructors/destructor log creation-order tokens (C05); for the kinds
  * te/ue the result lines have the C05 form (R = legality of the callback log). */
 extern "C" {
@@ -74,6 +76,8 @@ static const char *traits_name(const struct type_traits *t)
 	if (t == type_properties<uint8_t>::traits()) return "x1";
 	if (t == type_properties<Pod>::traits()) return "x12";
 	if (t == type_properties<Elem>::traits()) return "xe";
+	if (t == type_properties<map<uint8_t, uint8_t>::entry>::traits()) return "xm";
+	if (t == type_properties<uint8_t *>::traits()) return "xp";
 	if (t == type_traits::get('c')) return "c";
 	if (t == type_traits::get('i')) return "i";
 	if (t == type_traits::get('d')) return "d";
@@ -99,7 +103,14 @@ struct H
 	virtual int detach() { return -1; }
 	virtual int trim(size_t) { return -1; }
 	virtual int skip(size_t) { return -1; }
+	/* map */
+	virtual int mset(uint8_t, uint8_t) { return -2; }
+	virtual int mget(uint8_t) { return -2; }
+	/* pointer_array */
+	virtual int pswap(long, long) { return -2; }
+	virtual int pcompact() { return -2; }
 	virtual bool is_array() const { return false; }
+	virtual bool is_map() const { return false; }
 };
 class XA : public array
 {
@@ -133,6 +144,8 @@ struct HA : H
 template <typename T> static void make_val(T *, const uint8_t *) { }
 static inline void fill_val(uint8_t *v, const uint8_t *b) { *v = b[0]; }
 static inline void fill_val(Pod *v, const uint8_t *b) { for (int i = 0; i < 12; i++) v->b[i] = (uint8_t) (b[0] + i); }
+typedef uint8_t *Ptr;
+static inline void fill_val(Ptr *v, const uint8_t *b) { *v = (Ptr) (uintptr_t) b[0]; }
 
 /* typed_array<T> with a by-value insert; for unique_array<T> the default-constructing insert */
 template <typename T>
@@ -200,6 +213,52 @@ struct HT : H
 	int skip(size_t n) { if (!a.detach()) return -1; buffer *p = a.b(); return (p && p->skip(n * sizeof(T))) ? 0 : -1; }
 };
 
+/* pointer_array<uint8_t>: pointers are plain numbers here (00 = null) */
+class XP : public pointer_array<uint8_t>
+{
+public:
+	XP() : pointer_array<uint8_t>(-1) { }     /* no buffer to start with (the default length 0 creates one) */
+	XP(const XP &a) : pointer_array<uint8_t>(a) { }
+	buffer *b() const { return this->_ref.instance(); }
+	int ins(long pos, const uint8_t *v) { Ptr val; fill_val(&val, v); return this->insert(pos, val) ? 0 : -1; }
+	int put(long pos, const uint8_t *v) { Ptr val; fill_val(&val, v); return this->set(pos, val) ? 0 : -1; }
+};
+struct HPA : HT<XP, Ptr>
+{
+	HPA() { }
+	HPA(const HPA &o) : HT<XP, Ptr>(o) { }
+	H *copy() const { return new HPA(*this); }
+	int pswap(long p1, long p2) { return this->a.swap(p1, p2) ? 0 : -1; }
+	int pcompact() { this->a.compact(); return 0; }
+};
+
+/* map<uint8_t, uint8_t>: the entries live in a typed_array */
+typedef map<uint8_t, uint8_t> Map;
+class XM : public Map
+{
+	struct peek : typed_array<Map::entry> { buffer *b() const { return this->_ref.instance(); } };
+public:
+	XM() { }
+	XM(const XM &a) : Map(a) { }
+	buffer *b() const { return static_cast<const peek &>(this->_d).b(); }
+};
+struct HM : H
+{
+	XM a;
+	HM() { }
+	HM(const HM &o) : a(o.a) { }
+	const buffer *buf() const
+	{
+		const buffer *p = a.b();
+		return (p && p->get_flags() == (BufferImmutable | BufferShared | BufferNoCopy)) ? 0 : p;
+	}
+	H *copy() const { return new HM(*this); }
+	void assign(const H &o) { a = static_cast<const HM &>(o).a; }
+	int mset(uint8_t k, uint8_t v) { return a.set(k, v) ? 0 : -1; }
+	int mget(uint8_t k) { uint8_t *v = a.get(k); return v ? *v : -1; }
+	bool is_map() const { return true; }
+};
+
 #define NH 8
 static H *hs[NH];
 static int nh;
@@ -216,6 +275,8 @@ static H *make(void)
 	if (!strcmp(kind, "u1")) return new HT<XU<uint8_t>, uint8_t>;
 	if (!strcmp(kind, "u12")) return new HT<XU<Pod>, Pod>;
 	if (!strcmp(kind, "ue")) return new HT<XU<Elem>, Elem>;
+	if (!strcmp(kind, "mp")) return new HM;
+	if (!strcmp(kind, "pa")) return new HPA;
 	return 0;
 }
 
@@ -303,12 +364,13 @@ static void put_state(const char *verdict, const char *detail, const char *ret, 
 	}
 	printf(" heap=%zu\n", __sanitizer_get_current_allocated_bytes() - heap0);
 }
-static char r_verdict[16], r_ret[48];
+static char r_verdict[16], r_ret[48], r_detail[16] = "-";
 static int r_have, r_final;
 static void result(const char *verdict, const char *ret, int final = 0)
 {
 	snprintf(r_verdict, sizeof(r_verdict), "%s", verdict);
 	snprintf(r_ret, sizeof(r_ret), "%s", ret);
+	snprintf(r_detail, sizeof(r_detail), "-");
 	r_have = 1; r_final = final;
 }
 static void result_ptr(const void *p, int h)
@@ -374,7 +436,8 @@ int main(void)
 	{ buffer *b = _mpt_buffer_alloc(1, 0); b->unref(); }
 	/* function-local statics of the library templates: create them before the heap accounting starts */
 	{ typed_array<uint8_t> a; typed_array<Pod> b; typed_array<Elem> c; unique_array<uint8_t> d; unique_array<Pod> e; unique_array<Elem> f;
-	  (void) type_properties<uint8_t>::traits(); (void) type_properties<Pod>::traits(); (void) type_properties<Elem>::traits(); }
+	  (void) type_properties<uint8_t>::traits(); (void) type_properties<Pod>::traits(); (void) type_properties<Elem>::traits();
+	  Map m; (void) type_properties<Map::entry>::traits(); pointer_array<uint8_t> pa; (void) type_properties<Ptr>::traits(); }
 	while (fgets(line, sizeof(line), stdin)) {
 		uint8_t *dat = 0; size_t dlen = 0; int isnull = 0;
 		size_t a, b;
@@ -464,6 +527,21 @@ int main(void)
 			}
 			else BAD;
 		}
+		else if (hs[h]->is_map()) {
+			uint8_t *kd = 0; size_t kl = 0; int kn = 0;
+			if (!strcmp(op, "mset") && drv_nw == 5) {
+				if (data_arg(drv_w[3], &kd, &kl, &kn) || kn || kl != 1 || data_arg(drv_w[4], &dat, &dlen, &isnull) || isnull || dlen != 1) { free(kd); BAD; }
+				result_bool(hs[h]->mset(kd[0], dat[0]));
+			}
+			else if (!strcmp(op, "mget") && drv_nw == 4) {
+				if (data_arg(drv_w[3], &kd, &kl, &kn) || kn || kl != 1) { free(kd); BAD; }
+				int r = hs[h]->mget(kd[0]);
+				if (r < 0) result("refused", "null");
+				else { char ret[16]; snprintf(ret, sizeof(ret), "%02x", r); result("ok", ret); snprintf(r_detail, sizeof(r_detail), "%s", ret); }
+			}
+			else { free(kd); BAD; }
+			free(kd);
+		}
 		else {
 			if ((!strcmp(op, "insert") || !strcmp(op, "set")) && drv_nw == 5) {
 				if (long_arg(drv_w[3], &pos) || data_arg(drv_w[4], &dat, &dlen, &isnull) || isnull || dlen != 1) BAD;
@@ -480,6 +558,18 @@ int main(void)
 				result_bool(hs[h]->reserve(pos));
 			}
 			else if (!strcmp(op, "detach") && drv_nw == 3) result_bool(hs[h]->detach());
+			else if (!strcmp(op, "swap") && drv_nw == 5) {
+				long p2;
+				if (long_arg(drv_w[3], &pos) || long_arg(drv_w[4], &p2)) BAD;
+				int r = hs[h]->pswap(pos, p2);
+				if (r == -2) BAD;
+				result_bool(r);
+			}
+			else if (!strcmp(op, "compact") && drv_nw == 3) {
+				int r = hs[h]->pcompact();
+				if (r == -2) BAD;
+				result("ok", "-");
+			}
 			else if (!strcmp(op, "trim") && drv_nw == 4) {
 				if (drv_parse_nat(drv_w[3], &a) || a > 100000) BAD;
 				result_bool(hs[h]->trim(a));
@@ -492,7 +582,7 @@ int main(void)
 		}
 		free(dat); dat = 0;
 next:
-		if (r_have) { r_have = 0; put_state(r_verdict, "-", r_ret, r_final); }
+		if (r_have) { r_have = 0; put_state(r_verdict, r_detail, r_ret, r_final); }
 	}
 	reset_all();
 	return 0;
